@@ -34,6 +34,11 @@ for sig in ["returned buffer holds same:Op(A,A), want same:Op(A,B)", "returned b
     for path in ["raw", "iter"]:
         finding(["C07","C11"], "M2", "tensor.(StdEng).*[reuse,same,%s,R=B]" % path, ALIAS + " (comparisons with same-type result)", sig, 45)
 
+# ---- engine L (layout predicates) ------------------------------------------------------------
+finding(["C12","C16","C07","C06","C11"], "L0", "tensor.prepDataUnary#useIter",
+        "prepDataUnary has no data-order term: Neg(colA, WithIncr(rowZeros)) adds raw column-major data into a row-major buffer (non-incr reuse is compensated by handleFuncOpts giving reuse the operand's order)",
+        "rows 12,20 of riA,riR,nnR,colA,colR", 41)
+
 FIXED = [
  {"property":"C12","commit":"f9c3ab4","rule":"K2","key":"internal/execution.MapIncrErr/*, internal/execution.MapIterIncrErr/*","what":"fixed: property=C12 f9c3ab4 MapIncrErr*/MapIterIncrErr* (all 15 types) stored a[i] = x where MapIncr/MapIterIncr do a[i] += fn(a[i]) (also C17, C07; DESIGN finding 36)"},
  {"property":"C06","commit":"5c3ad09","rule":"K2","key":"internal/execution.DivIterIncr{,SV,VS}/int:*","what":"fixed: property=C06 5c3ad09 integer DivIterIncr/DivIterIncrSV/DivIterIncrVS zeroed incr[i] through an operand's iterator index instead of the increment's own (also C07, C17; found by K2/K7 index pairing)"},
